@@ -69,6 +69,21 @@ func init() {
 	}
 }
 
+// c17OpsExt: c17Ops followed by registrations that are open to the end of the table (end U+FFFF, as the
+// tokenizers' own default word range); histories over them are enumerated in a space of their own
+var c17OpsExt []c17Op
+var c17OpenFirst int
+
+func init() {
+	c17OpsExt = append(c17OpsExt, c17Ops...)
+	c17OpenFirst = len(c17OpsExt)
+	for ref := 0; ref < 3; ref++ {
+		for _, s := range c17Endpoints {
+			c17OpsExt = append(c17OpsExt, c17Op{0, s, 0xFFFF, ref})
+		}
+	}
+}
+
 var c17HighCache []int
 
 // c17HighOps: the operations whose range reaches above U+00FF (they populate the interval list)
@@ -146,9 +161,24 @@ func c17Classify(v interface{}) string {
 func c17HistStr(h []int) string {
 	p := []string{}
 	for _, i := range h {
-		p = append(p, c17Ops[i].String())
+		p = append(p, c17OpsExt[i].String())
 	}
 	return strings.Join(p, "; ")
+}
+
+// c17OpenHistory: two registrations, at least one of them open to the end of the table, in both orders
+func c17OpenHistory(i int64) []int {
+	no := int64(len(c17OpsExt) - c17OpenFirst)
+	n := int64(len(c17Ops))
+	if i < 2*n*no {
+		a, b := int(i/2%n), c17OpenFirst+int(i/2/n)
+		if i%2 == 0 {
+			return []int{a, b}
+		}
+		return []int{b, a}
+	}
+	i -= 2 * n * no
+	return []int{c17OpenFirst + int(i/no), c17OpenFirst + int(i%no)}
 }
 
 // c17CheckHistory replays h on a fresh map and compares every probe with the model.
@@ -158,15 +188,22 @@ func c17CheckHistory(c *fw.Ctx, h []int) string {
 	var ivs []c17Interval
 	names := []string{"A", "B", "nil"}
 	var key strings.Builder
+	openEnded := false
 	// the probes are looked up after EVERY operation on the same map (lookups between
 	// registrations must not influence later answers); the vector after the last one is the state key
 	for step := 0; step <= len(h); step++ {
 		if step > 0 {
-			c17Apply(m, c17Ops[h[step-1]])
-			ivs = c17ModelApply(ivs, c17Ops[h[step-1]])
+			c17Apply(m, c17OpsExt[h[step-1]])
+			ivs = c17ModelApply(ivs, c17OpsExt[h[step-1]])
+			if h[step-1] >= c17OpenFirst {
+				openEnded = true
+			}
 		}
 		key.Reset()
 		for _, p := range c17Probes {
+			if openEnded && p == 0xFFFF {
+				continue // whether the table's last slot is U+FFFE or U+FFFF is not pinned
+			}
 			var got string
 			if pv := fw.Try(func() { got = c17Classify(m.Lookup(p)) }); pv != nil {
 				got = "panic"
@@ -192,6 +229,9 @@ func c17CheckHistory(c *fw.Ctx, h []int) string {
 				p = c17Probes[j/2]
 			} else {
 				p = c17Probes[len(c17Probes)-1-j/2]
+			}
+			if openEnded && p == 0xFFFF {
+				continue
 			}
 			var got string
 			if pv := fw.Try(func() { got = c17Classify(m.Lookup(p)) }); pv != nil {
@@ -710,7 +750,7 @@ func init() {
 		ID:    "C17",
 		Level: "model_checking",
 		Rule: "all histories of AddInterval/AddDefaultInterval/Clear over the boundary endpoints x {A,B,nil} up to the depth bound, each replayed on a fresh CharReferenceMap and compared probe by probe (17 probes: endpoints and neighbours) with an interval-list model by reference identity; " +
-			"plus three adjacent ranges (five sets on both sides of U+0100) in all six orders with all reference assignments; plus one registration followed by 255..257 and 65535..65537 Clear() calls; plus every triple of registrations above U+00FF on top of 13..255 live filler registrations; plus an explicit-state BFS with the probe vector as state key; plus derived checks through a real tokenizer's dispatch table, a second state object of every built-in kind configured for six ranges of the generic, expression and CSV tokenizers (every character must be handed to that object) and the word/whitespace states' range toggles (after Clear and on top of the default ranges, three probe texts that start with a character enabled for the state, and an untouched second state must keep its defaults); every history is non-trivial except the empty one",
+			"plus three adjacent ranges (five sets on both sides of U+0100) in all six orders with all reference assignments; plus every pair of registrations of which one or both are open to the end of the table (end U+FFFF); plus one registration followed by 255..257 and 65535..65537 Clear() calls; plus every triple of registrations above U+00FF on top of 13..255 live filler registrations; plus an explicit-state BFS with the probe vector as state key; plus derived checks through a real tokenizer's dispatch table, a second state object of every built-in kind configured for six ranges of the generic, expression and CSV tokenizers (every character must be handed to that object) and the word/whitespace states' range toggles (after Clear and on top of the default ranges, three probe texts that start with a character enabled for the state, and an untouched second state must keep its defaults); every history is non-trivial except the empty one",
 		Assume: []string{"probe-vector canonicalisation: equal probe vectors have equal futures on the probes for any implementation that answers lookups from the latest covering registration; the un-merged full enumeration does not rely on it"},
 		Spaces: func(tier string) []fw.Space {
 			depth, bfsDepth := 2, 3
@@ -788,6 +828,9 @@ func init() {
 					Repr: func(i int64) string {
 						return fmt.Sprintf("SetCharacterState %s; %s with user-defined states of a non-comparable type", c17Ops[int(i/nOps)], c17Ops[int(i%nOps)])
 					}},
+				{Name: "open-ended-ranges", N: int64(2*len(c17Ops)*(len(c17OpsExt)-c17OpenFirst) + (len(c17OpsExt)-c17OpenFirst)*(len(c17OpsExt)-c17OpenFirst)),
+					Run: func(c *fw.Ctx, i int64) { c17CheckHistory(c, c17OpenHistory(i)); c.Nontrivial() },
+					Repr: func(i int64) string { return "[" + c17HistStr(c17OpenHistory(i)) + "]" }},
 				{Name: "tokenizer-hands-over", N: int64(len(tokKinds) * len(c17SecondKinds) * len(c17SecondRanges)), Run: c17HandOver,
 					Repr: func(i int64) string {
 						k := int(i) / len(tokKinds)
